@@ -190,6 +190,12 @@ def write_md(results):
 
 
 TRIAGE = {
+    ('src/layouts/azerty.rs', 'identifier is_altgr -> is_shifted'):
+        'equivalent with respect to the properties (the Key9 site; the same swap at other sites is caught): the branch becomes dead, so AltGr+9 types the base '
+        'character instead of the circumflex - a lost AltGr level, which C03 does not forbid, and the circumflex stays typable on its own key (C12).',
+    ('src/layouts/no105.rs', "char literal '€' -> '₭'"):
+        'falls into a documented gap of the oracle, not of the machinery: Norwegian AltGr+5 is one of the four cells of spec/layouts that could not be pinned '
+        'without network access and is left unconstrained (DESIGN.md section 3, C03).',
     ('src/layouts/uk105.rs', 'KeyCode::Key4 -> KeyCode::Oem3'):
         'equivalent with respect to the properties, same shape as the other two: the renamed arm is shadowed by the earlier Oem3 arm, KeyCode::Key4 falls '
         'through to the US layout (4 and $ as before) and only loses its AltGr level (the euro sign).',
